@@ -4,7 +4,7 @@
    the step theorem through C04_resolve_rel. *)
 From Avfs Require Import Base BaseProofs PathModel PathSpec PathProofs PathCleanProofs PathIterProofs.
 From Avfs Require Import MemFS MemFile World Posix Inv InvWorld.
-From Avfs Require Import WalkBridge WalkSym WalkBudget WalkReadlink WalkRel StepEq WalkInv WalkEval StepInv StepRename StepRenameDir StepHist.
+From Avfs Require Import WalkBridge WalkSym WalkBudget WalkReadlink WalkRel StepEq WalkInv WalkEval StepInv StepRename StepRenameDir StepHist DacLemmas.
 
 (* ---- the specification never reads the working-directory STRING of its view ----------------------------------------------- *)
 Definition sw_setcwd (sw : sworld) (d : str) : sworld :=
@@ -247,7 +247,8 @@ Proof.
     { apply (admin_kperm _ _ _ 1 H). apply node_is_dir_valid. exact (sh_root _ _ H). }
     destruct (getwd_agree (f_heap (sw_fs sw)) _ _ I (sh_root _ _ H) Hrp bs _ Hg Hw) as (G1 & G2 & G3).
     cbn [sw_setcwd sw_fs sw_sv sv_view set_cwd v_root v_user] in G1, G2, G3.
-    unfold impl_step_proj, wstep, on_view. rewrite Hv. unfold spec_step. cbv zeta. rewrite G1. cbn [negb]. rewrite G2, G3.
+    unfold impl_step_proj, wstep, on_view. rewrite Hv. rewrite getwd_admin by exact (sh_admin _ _ H).
+    unfold spec_step. cbv zeta. rewrite G1. cbn [negb]. rewrite G2, G3.
     cbn [fst snd v_cwd set_cwd].
     split; [apply obs_sim_refl|]. exists (abs_path bs). split; [exact Hfs|]. split; [exact Hv|]. exists bs. auto.
 Qed.
